@@ -24,6 +24,8 @@ import math
 
 import numpy as np
 
+import core as core_mod
+
 NEEDS_KERNEL = False
 
 RULE = ("configurations from the scenario engine: p in 1..3, q in 0..2, K FixedCompanionMass / Normal, jitter zero / "
@@ -71,9 +73,13 @@ def make_cfg(rng, index):
     canonical = index % 4 == 0
     p = int(rng.choice([1, 2, 3]))
     q = int(rng.choice([0, 0, 1, 2]))
+    if index % 10 == 7:          # many surveys: two-digit offset names (dv0_10, dv0_11, ...)
+        q = int(rng.choice([10, 11, 12]))
+        p = int(rng.choice([1, 2]))
     s_kind = ["zero", "const", "sampled", "sampled"][index % 4] if index % 4 else str(rng.choice(["const", "sampled"]))
     for _ in range(200):
-        pr = scen.make_problem(rng, p=p, q=q, s_kind=s_kind, units="canonical" if canonical else None, n=int(rng.integers(q + 3, 10)),
+        pr = scen.make_problem(rng, p=p, q=q, s_kind=s_kind, units="canonical" if canonical else None,
+                               n=int(rng.integers(q + 3, 10)) if q < 6 else q + 1 + int(rng.integers(2, 8)),
                                data_form=None if q == 0 else "list", err_scale=float(10 ** rng.uniform(-1.0, 0.3)), build=False)
         if q == 0 or pr.desc["layout"] == "disjoint":
             break
@@ -194,6 +200,8 @@ def cfg_case(ctx, g, rng, index):
     ctx.count(f"cfg:s={d['s']['kind']}")
     ctx.count(f"cfg:p={pr.p}")
     ctx.count(f"cfg:q={'0' if pr.q == 0 else '>0'}")
+    if pr.q >= 10:
+        ctx.count("cfg:q>=10")
     ctx.count(f"cfg:K={d['K']['kind']}")
     if abs(uf["cP"] - 1) > 1e-12:
         ctx.count("cfg:P-not-day")
@@ -264,6 +272,22 @@ def cfg_case(ctx, g, rng, index):
         kc = scen.kepler_column(t, P_d, th["e"], om, M0, t_ref)
         trend = trend_M @ np.array(xlin)
         rv_s = K_du * kc + trend
+        # The pymc model solves Kepler's equation with exoplanet_core (third party, trusted base), the sampler with
+        # twobody.  exoplanet_core's sin f is off by up to ~1e-5 (absolute) within ~1e-4 rad of mean anomaly pi
+        # (measured: e = 0.219, M = pi - 1.4e-5 -> -9.3e-6), i.e. up to ~1e-5 K in the RV.  The property is about the
+        # model's conventions, so the implementation is compared with the sampler's formula evaluated with the SAME
+        # Kepler oracle the implementation calls; the two oracles are compared with each other separately.
+        import exoplanet_core
+        Mm = 2 * math.pi * (t - t_ref) / P_d - M0
+        sinf, cosf = exoplanet_core.kepler(np.asarray(Mm, dtype=float), np.full(len(t), float(th["e"])))
+        kc_exo = math.cos(om) * np.asarray(cosf) - math.sin(om) * np.asarray(sinf) + th["e"] * math.cos(om)
+        if float(np.max(np.abs(kc_exo - kc))) > 1e-9:
+            ctx.count("kepler-oracles-differ>1e-9 (exoplanet_core vs twobody)")
+        if float(np.max(np.abs(kc_exo - kc))) > 3e-5:
+            raise core_mod.Infra(f"exoplanet_core and twobody Kepler solvers differ by {float(np.max(np.abs(kc_exo - kc))):.3g}")
+        rv_s_twobody = rv_s
+        kep_gap = abs(K_du) * float(np.max(np.abs(kc_exo - kc)))     # what the two third-party solvers disagree by
+        rv_s = K_du * kc_exo + trend
         tol_rv = 1e-8 * (abs(K_du) + 1) + 1e-10 * float(np.max(np.abs(trend)))
         # how visible are the classic mistakes at this point?
         kc_wrong_phase = scen.kepler_column(t, P_d, th["e"], om, M0 * th["P"] / P_d, t_ref)
@@ -282,9 +306,9 @@ def cfg_case(ctx, g, rng, index):
                           "the pymc model must predict the sampler's radial velocities (same phase / reference epoch / offset / trend "
                           "conventions, parameters read in their declared units)", tags=dict(tags0, where="model_rv"))
         else:
-            if float(np.max(np.abs(rv_m - rv_impl))) > 10 * tol_rv:
+            if float(np.max(np.abs(rv_m - rv_impl))) > 10 * tol_rv + 2 * kep_gap:
                 ctx.mismatch(REL_RV, g, inp, rv_impl.tolist(), rv_m.tolist(), "Lean mcmcRV (declared inputs) differs from model_rv")
-        if float(np.max(np.abs(rv_ms - rv_s))) > 10 * tol_rv or float(np.max(np.abs(rv_m - rv_ms))) > 10 * tol_rv:
+        if float(np.max(np.abs(rv_ms - rv_s_twobody))) > 10 * tol_rv or float(np.max(np.abs(rv_m - rv_ms))) > 10 * tol_rv:
             ctx.mismatch(REL_RV, g, inp, rv_s.tolist(), rv_ms.tolist(), "Lean samplerRV differs from the sampler's design matrix (harness oracle problem)")
         # ---- Gaussian data term, from the implementation's own model_rv
         var = sig ** 2 + s_du ** 2
@@ -399,6 +423,7 @@ def post(ctx):
     ctx.require("constant non-zero jitter", c["cfg:s=const"], 2)
     ctx.require("points where the jitter is visible", c["point:jitter-visible"], 30)
     ctx.require("offsets", c["cfg:q=>0"], 4)
+    ctx.require("configurations with >= 10 survey offsets", c["cfg:q>=10"], 2)
     ctx.require("poly_trend >= 2", c["cfg:p=2"] + c["cfg:p=3"], 5)
     ctx.require("init from several samples", c["init:N>1"], 8)
     ctx.require("init from one sample", c["init:N=1"], 1)
